@@ -1298,7 +1298,8 @@ def solve_ivp(fun, t_span, y0, method='RK45', t_eval=None, dense_output=False,
     callbacks = list(options.get("callbacks", []))
     if "max_step" in options or "min_step" in options:
         def __step_cb(ode_sys):
-            ode_sys.dt = D.ar_numpy.clip(ode_sys.dt, min=min_step, max=max_step)
+            # min_step and max_step bound the magnitude of the step, dt is negative when t_span decreases
+            ode_sys.dt = D.ar_numpy.sign(ode_sys.dt) * D.ar_numpy.clip(D.ar_numpy.abs(ode_sys.dt), min=min_step, max=max_step)
         callbacks.append(__step_cb)
     
     integration_options = dict(callback=callbacks, events=events, eta=options.get("show_prog_bar", False))
